@@ -384,6 +384,19 @@ def _work_batch(pid, tier, verif_seed, start, count, known_sigs, want_digests, d
             disc = r["discard"]
             if disc:
                 agg["discarded"][disc] = agg["discarded"].get(disc, 0) + 1
+            if r["v"] is not None and r["v"]["kind"] == "run-time-limit-exceeded":
+                # slow, or really not terminating?  Once more, alone in a fresh fork, with ten times the limit.
+                try:
+                    os.environ["VERIF_RUN_LIMIT_S"] = str(10 * (90.0 if tier == "quick" else 180.0))
+                    r2 = isolated(_execute_job, (pid, tier, r["record"]), timeout=2400.0)
+                finally:
+                    os.environ.pop("VERIF_RUN_LIMIT_S", None)
+                if r2["v"] is None:
+                    agg["stats"]["slow_runs_over_limit"] = agg["stats"].get("slow_runs_over_limit", 0) + 1
+                    r["v"] = None
+                else:
+                    r["v"] = r2["v"]
+                    r["record"] = r2["record"]
             if r["v"] is not None:
                 if r["v"]["sig"] in known_sigs:
                     agg["known"][r["v"]["sig"]] = agg["known"].get(r["v"]["sig"], 0) + 1
